@@ -13,8 +13,10 @@ PROP = "C06"
 IMPORTS = "From JV Require Import Lib.Base Model.C06Validate Spec.C06Spec Corr.C06Judge."
 RULE = ("seeded random declaration trees (depth <= 3: arguments, dotted groups, dataclass arguments with nested dataclass / "
         "class / list fields, class-typed arguments with 1-2 subclasses, List[dataclass], optional or required subcommands), "
-        "one valid configuration each, then every single mutation of it: a foreign key (fresh name, or a name declared at "
-        "another level) with values 7 / null / {} / nested mappings / lists inserted into every mapping of the tree "
+        "signature-derived fields may carry a leading underscore: a required private field is declared like any other, a private "
+        "field with a default exists in the source but is not declared), "
+        "one valid configuration each, then every single mutation of it: a foreign key (fresh name, a name declared at "
+        "another level, an undeclared private field of the source, or the list-append spelling 'zz+' / '<declared non-list name>+') with values 7 / null / {} / nested mappings / lists inserted into every mapping of the tree "
         "(top level, group, dataclass, class value, init_args, list item, subcommand section incl. a section not in force), "
         "every key removed, every scalar / argument key nulled, plus seeded pairs insertion+removal; each through one of the "
         "channels parse_object / parse_string / argv --cfg / environment APP_CFG (quick: channel drawn per case, thorough: all four), "
@@ -383,7 +385,7 @@ def mutants(rng, p, cfg, tier):
 
 def generate(rng, tier):
     cases = []
-    nparsers = 60 if tier == "quick" else 180
+    nparsers = 60 if tier == "quick" else 150
     for _ in range(nparsers):
         g = Gen(rng)
         p = g.parser()
